@@ -6,6 +6,6 @@ import "github.com/TheCacophonyProject/go-cptv/cptvframe"
 
 // Accessors for the correspondence harness (unexported detector state).
 
-func (d *motionDetector) VerifThresh() uint16                { return d.tempThresh }
+func (d *motionDetector) VerifThresh() uint16               { return d.tempThresh }
 func (d *motionDetector) VerifBackground() *cptvframe.Frame { return d.background }
 func VerifFFCPeriodNs() int64                               { return int64(ffcPeriod) }
